@@ -226,6 +226,30 @@ func syncRetryClone(repo string) (string, string, error) {
 			return false
 		})
 	}
+	// Client.roundTrip runs once per attempt: the request fields it assigns (`r.<field> = ...`)
+	// are state carried into the next attempt.  Only per-attempt bookkeeping may be written.
+	var rtAssigns []string
+	if rt := findFunc(files, "*Client", "roundTrip"); rt != nil && rt.Body != nil {
+		seen := map[string]bool{}
+		ast.Inspect(rt.Body, func(n ast.Node) bool {
+			switch x := n.(type) {
+			case *ast.AssignStmt:
+				for _, l := range x.Lhs {
+					if sel, ok := l.(*ast.SelectorExpr); ok && exprString(sel.X) == "r" && !seen[sel.Sel.Name] {
+						seen[sel.Sel.Name] = true
+						rtAssigns = append(rtAssigns, sel.Sel.Name)
+					}
+				}
+			case *ast.IncDecStmt:
+				if sel, ok := x.X.(*ast.SelectorExpr); ok && exprString(sel.X) == "r" && !seen[sel.Sel.Name] {
+					seen[sel.Sel.Name] = true
+					rtAssigns = append(rtAssigns, sel.Sel.Name)
+				}
+			}
+			return true
+		})
+		sort.Strings(rtAssigns)
+	}
 	type st struct{ recv, name, field string }
 	setters := []st{
 		{"*Client", "SetCommonRetryCondition", "RetryConditions"}, {"*Client", "AddCommonRetryCondition", "RetryConditions"},
@@ -247,6 +271,7 @@ func syncRetryClone(repo string) (string, string, error) {
 	fmt.Fprintf(&sb, "(* Request.do begins with unmergeClientSettings, which restarts RetryAttempt at 0 whatever the entry point *)\nDefinition do_resets_attempt : bool := %s.\n\n", hk.CoqBool(resets))
 	fmt.Fprintf(&sb, "(* Request.do consults r.Context() itself for the stop decision and the wait of every attempt *)\nDefinition ctx_read_per_attempt : bool := %s.\n\n", hk.CoqBool(ctxPerAttempt))
 	fmt.Fprintf(&sb, "(* SetBodyBytes' GetBody returns a reader of its own on every call *)\nDefinition getbody_fresh_reader : bool := %s.\n\n", hk.CoqBool(freshReader))
+	fmt.Fprintf(&sb, "(* the fields of the Request that Client.roundTrip (run once per attempt) assigns *)\nDefinition roundtrip_assigns : list bytes := %s.\n\n", hk.CoqStrList(rtAssigns))
 	sb.WriteString("(* what each setter does to its slice *)\nDefinition setter_table : list (bytes * setter_kind) := [\n" + strings.Join(rows, ";\n") + "\n].\n")
 	return "RetryClone.v", sb.String(), nil
 }
